@@ -261,4 +261,68 @@ theorem attr_select_ref (env : Env F) (strict : Bool) (a : AttrD) (n : String) (
   rw [hcri]
   simp
 
+theorem elemReadCore_select (env : Env F) (n : String) (sd : SelectD) (hsd : env.dict.select? n = some sd) (s : IStream) :
+    elemReadCore env (.select n) s = (do
+      let (r, v, s1) ← selectRead env sd s
+      let (s2, e) := checkRemainingInput env.lex (some attrDelims) s1 r
+      let (s3, e2) := checkRemainingInput env.lex (some attrDelims) s2 e
+      pure (e2, v, s3)) := by
+  unfold elemReadCore
+  simp only [hsd]
+
+/-- elements of an aggregate of selects: `KEYWORD(value)` -/
+theorem ElemRd.selTyped (env : Env F) (hcfg : env.lex.criSkipsComments = true) (hagg : env.cfg.aggrSkipsComments = true)
+    (n : String) (sd : SelectD) (hsd : env.dict.select? n = some sd)
+    (m : SelMember) (n0 : Byte) (ns : List Byte) (hn0 : isAlpha n0 = true) (hns : ns.all selc = true)
+    (hfind : sd.members.find? (fun x => x.name == bytesToString (upperBytes (n0 :: ns)) && !x.ty.isEntity) = some m)
+    (tok : List Byte) (av : Atom F) (hleaf : LeafRd env m tok av) (sB sC : List Byte) (hsB : sB.all isSpace = true)
+    (hsC : sC.all isSpace = true) (before after : List Byte) (hb : Seps before) (ha : Seps after) :
+    ElemRd env (.select n) { tok := selText n0 ns sB tok sC, before := before, after := after, v := .sel m.name av } := by
+  obtain ⟨hn0s, hn047, _, _, _, _, _, _, hn092⟩ := alpha_facts hn0
+  have hn044 : n0 ≠ 44 := by intro h; rw [h] at hn0; exact absurd hn0 (by decide)
+  have hn041 : n0 ≠ 41 := by intro h; rw [h] at hn0; exact absurd hn0 (by decide)
+  refine ⟨hb, ⟨n0, _, rfl, hn0s, hn047, hn041, hn092⟩, ?_⟩
+  intro l sk d rest hd
+  obtain ⟨sk', hsk', hsr⟩ := selectRead_typed env sd m n0 ns hn0 hns hfind tok av hleaf sB sC hsB hsC l sk (after ++ d :: rest)
+  refine ⟨sk', hsk', ?_⟩
+  show elemRead env (.select n) (G l (selText n0 ns sB tok sC ++ (after ++ d :: rest)) sk) = _
+  rw [selText_append, elemRead_at_tok env hagg _ l n0 _ sk hn0s hn047 hn044 hn041 hn092, elemReadCore_select env n sd hsd]
+  simp only [bind, Except.bind, pure, Except.pure, hsr]
+  rw [cri_seps env.lex hcfg after ha _ rest d false sk' .null hd]
+  have hcri := cri_seps env.lex hcfg [] (Seps.blanks [] (by simp))
+    (after.reverse ++ (41 :: (sC.reverse ++ (tok.reverse ++ (sB.reverse ++ 40 :: (ns.reverse ++ n0 :: l)))))) rest d false sk' .null hd
+  simp only [List.nil_append, List.reverse_nil] at hcri
+  simp only [hcri]
+  simp [selText]
+
+/-- elements of an aggregate of selects: an entity reference -/
+theorem ElemRd.selRef (env : Env F) (hcfg : env.lex.criSkipsComments = true) (hagg : env.cfg.aggrSkipsComments = true)
+    (n : String) (sd : SelectD) (hsd : env.dict.select? n = some sd) (m : SelMember)
+    (ds : List Byte) (hne : ds ≠ []) (hds : ds.all isDigit = true) (hhi : ((digitsVal ds 0 : Nat) : Int) ≤ intMax)
+    (hasg : assignEntity env sd ((digitsVal ds 0 : Nat) : Int) = some m)
+    (before after : List Byte) (hb : Seps before) (ha : Seps after) :
+    ElemRd env (.select n) { tok := 35 :: ds, before := before, after := after,
+                             v := .sel m.name (.ref ((digitsVal ds 0 : Nat) : Int)) } := by
+  refine ⟨hb, ⟨35, ds, rfl, by decide, by decide, by decide, by decide⟩, ?_⟩
+  intro l sk d rest hd
+  refine ⟨sk, Or.inl rfl, ?_⟩
+  have hsr := selectRead_ref env hcfg sd m ds hne hds hhi hasg l sk after ha d rest hd
+  show elemRead env (.select n) (G l (35 :: ds ++ (after ++ d :: rest)) sk) = _
+  simp only [List.cons_append]
+  rw [elemRead_at_tok env hagg _ l 35 _ sk (by decide) (by decide) (by decide) (by decide), elemReadCore_select env n sd hsd]
+  simp only [bind, Except.bind, pure, Except.pure, hsr]
+  have hcri := cri_seps env.lex hcfg [] (Seps.blanks [] (by simp)) (after.reverse ++ (ds.reverse ++ 35 :: l)) rest d false sk .null hd
+  simp only [List.nil_append, List.reverse_nil] at hcri
+  simp only [hcri]
+  simp
+
+/-! ## `SkipInstance` over a typed select value -/
+
+theorem selc_plain_of (ns : List Byte) (h : ns.all (fun c => selc c && plainc c) = true) : ns.all plainc = true := by
+  rw [List.all_eq_true] at h ⊢
+  intro c hc
+  have := h c hc
+  simp only [Bool.and_eq_true] at this
+  exact this.2
+
 end StepModel.P21.RLemmas
